@@ -30,12 +30,12 @@ def check(run, model, tier):
     run.rule('HSM-CURSOR.parent-read', 'parent read from the cursor only after SUPER / non-HANDLED EXIT')
     run.rule('HSM-CURSOR.I1', 'temp.fun == state.fun at every normal exit')
     ba, res = hsmrules.record_buffer_obligations(run, model, 'dispatch')
-    run.floor('buffer obligations in dispatch+trans_', len(res), 18)
+    run.floor('buffer obligations in dispatch+trans_', len(res), 12)
     n = hsmrules.entry_loops(run, model, 'dispatch')
     run.floor('entry loops in dispatch', n, 2)
     hsmrules.lca_match_rule(run, model)
     n = hsmrules.signal_sets(run, model, ['dispatch', 'trans_'])
-    run.floor('handler-call sites in dispatch+trans_', n, 19)
+    run.floor('handler-call sites in dispatch+trans_', n, 14)
     n = hsmrules.parent_read_typestate(run, model, ['dispatch', 'trans_'])
     run.floor('EXIT-then-read-parent sites', n, 2)
     hsmrules.cursor_invariant(run, model, ['dispatch'])
